@@ -54,3 +54,22 @@ CASES += [
     dict(id='c16-remove-drops-name', prop='C16', file='src/library/log/logging.cpp', expect='R3',
          old="   mAttributes.removeAttribute( attr_name);", new="   mAttributes.removeAttribute();"),
 ]
+
+LM = 'src/celma/log/detail/log_msg.hpp'
+CASES += [
+    dict(id='c16-getter-line-returns-errnbr', prop='C16', file=LM, expect='R5',
+         old="   return mLineNbr;", new="   return mErrNbr;"),
+    dict(id='c16-getter-file-returns-function', prop='C16', file=LM, expect='R5',
+         old="   return mFileName;", new="   return mFunctionName;"),
+    dict(id='c16-millis-rounded', prop='C16', file=LM, expect='R5',
+         old="   return std::chrono::duration_cast< std::chrono::milliseconds>( duration).\n      count() % 1000;",
+         new="   return std::chrono::round< std::chrono::milliseconds>( duration).\n      count() % 1000;"),
+    dict(id='c16-set-level-writes-nothing-of-level', prop='C16', file=LM, expect='R5',
+         old="   mErrNbr = error_nbr;", new="   mLineNbr = error_nbr;"),
+    dict(id='c16-eq-timestamp-explicit-floor', prop='C16', file=LM, expect=None,
+         old="   return std::chrono::system_clock::to_time_t( mTimestamp);",
+         new="   return std::chrono::system_clock::to_time_t(\n      std::chrono::time_point_cast< std::chrono::seconds>( mTimestamp));"),
+    dict(id='c16-eq-millis-no-local', prop='C16', file=LM, expect=None,
+         old="   auto  duration = mTimestamp.time_since_epoch();\n   return std::chrono::duration_cast< std::chrono::milliseconds>( duration).",
+         new="   return std::chrono::duration_cast< std::chrono::milliseconds>( mTimestamp.time_since_epoch())."),
+]
